@@ -19,7 +19,7 @@
    The real token state read by the rig while the main loop is parked in a
    poll (count, len) must equal the model's (clients, inUse) whenever no
    handler is inside ret(); the Clients field of the real poll request must
-   equal Round * (clients \div Round).                                      *)
+   be a multiple of Round that does not exceed inUse (see TPoll).            *)
 EXTENDS ProxySession, TLCExt
 
 VARIABLES l, pend
@@ -41,13 +41,24 @@ Skip == /\ l <= NEv
 NoHandlerInRet == \A s \in Sessions : hpc[s] \notin {"ret", "ret2"}
 
 (* ---- main loop ---- *)
+(* phantom sessions of the rig: the first half of get()/ret() is skipped, the second is the step *)
+TPhantomHalf == l <= NEv /\ Ev.ev \in {"tok.get.inc", "tok.ret.dec"} /\ Ev.g = "ph" /\ Step /\ UNCHANGED <<vars, pend>>
+TPhantomGet == Is("tok.get") /\ Ev.g = "ph" /\ PhantomGet /\ Step /\ UNCHANGED pend
+TPhantomRet == Is("tok.ret") /\ Ev.g = "ph" /\ PhantomRet /\ Step /\ UNCHANGED pend
 TGetInc == Is("tok.get.inc") /\ Ev.g = "main" /\ GetInc /\ Step /\ UNCHANGED pend
 TGet == Is("tok.get") /\ Ev.g = "main" /\ Get /\ Step /\ UNCHANGED pend
+(* The load in the real request is judged by the PROPERTY (a multiple of Round
+   that does not exceed the slots in use), not by the formula of the model: a
+   proxy that reported less than it could would not break C16.  `reported`
+   takes the observed value, so ReportedOK speaks about the real request. *)
 TPoll ==
-  /\ Is("poll") /\ Poll /\ Step /\ UNCHANGED pend
-  /\ Ev.s = cur
-  /\ Ev.clients = Round * (clients \div Round)
+  /\ Is("poll") /\ Step /\ UNCHANGED pend
+  /\ mpc = "poll" /\ Ev.s = cur
+  /\ Ev.clients % Round = 0 /\ Ev.clients >= 0 /\ Ev.clients <= inUse
   /\ (NoHandlerInRet => (Ev.count = clients /\ Ev.len = inUse))
+  /\ reported' = [val |-> Ev.clients, inUse |-> inUse]
+  /\ mpc' = "polled"
+  /\ UNCHANGED <<inUse, clients, cur, cls, sdp, hpc, released, owner, opened, closed, relayDialed, nNoOffer, nTimeouts, phantom, pcase>>
 TResp ==
   /\ Is("resp") /\ Step /\ UNCHANGED pend
   /\ CASE Ev.kind = "nomatch" -> NoOffer
@@ -114,6 +125,7 @@ TDone == l > NEv /\ UNCHANGED tvars
 TNext ==
   \/ Skip \/ TGetInc \/ TGet \/ TPoll \/ TResp \/ TExit \/ TAnswer \/ TAResp \/ TTimer \/ TMainDec \/ TMainTake
   \/ TOnDC \/ TDial \/ TRelayAccept \/ TRelayRefuse \/ TRelayEnd \/ THDec \/ THTake \/ THEnd
+  \/ TPhantomHalf \/ TPhantomGet \/ TPhantomRet
   \/ Silent \/ TEnd \/ TDiverged \/ TDone
 
 TSpec == TInit /\ [][TNext]_tvars
